@@ -77,6 +77,25 @@ Definition with_suffix (name e : str) : str :=
   | None => name ++ e
   end.
 
+(* ---- the namespace-file stem as pathlib sees it: `output_folder / PurePath(stem)` -------------------------------------------
+   The stem is an ARBITRARY string.  PurePath(stem) splits it at '/', drops empty and "." parts and keeps ".." parts; an
+   absolute stem REPLACES the folder (parts start with the root "/").  with_suffix then acts on the last part of the joined
+   path.  POSIX only (os.sep = '/', no os.altsep). *)
+Fixpoint split_on (c : chr) (s : str) : list str :=          (* s.split(c) *)
+  match s with
+  | [] => [[]]
+  | x :: r => match split_on c r with
+              | [] => [[]]
+              | h :: t => if x =? c then [] :: h :: t else (x :: h) :: t
+              end
+  end.
+Definition stem_abs (stem : str) : bool := match stem with x :: _ => x =? 47 | [] => false end.
+Definition stem_parts (stem : str) : list str :=
+  filter (fun c => negb (str_eqb c [] || str_eqb c [46])) (split_on 47 stem).
+(* what design_notes/C11_stem_validate_fix.patch (_checked_namespace_file_stem) accepts: a plain file name *)
+Definition stem_valid (stem : str) : bool :=
+  negb (str_eqb stem []) && negb (str_eqb stem [46]) && negb (str_eqb stem [46; 46]) && negb (existsb (N.eqb 47) stem).
+
 (* the identity on components: the `eqkey` of the current code *)
 Definition same (x : str) : str := x.
 
@@ -184,8 +203,12 @@ Section NS.
   (* the include path of a type referenced from anywhere (generate_include_filepart_list) *)
   Definition include_path (t : ty) : path := make_path t.
 
-  (* Namespace.__init__: _output_path *)
-  Definition ns_path (k : key) : path := outdir ++ map strop k ++ [with_suffix stem ext].
+  (* Namespace.__init__: _output_path = (output_folder / PurePath(stem)).with_suffix(ext); for a plain file name `stem` this is
+     outdir ++ map strop k ++ [with_suffix stem ext] (NamespacePathThm.ns_path_valid) *)
+  Definition with_suffix_last (p : path) (e : str) : path :=
+    match List.rev p with [] => [] | n :: r => List.rev r ++ [with_suffix n e] end.
+  Definition ns_path (k : key) : path :=
+    with_suffix_last ((if stem_abs stem then [[SLASH]] else outdir ++ map strop k) ++ stem_parts stem) ext.
 
   (* Namespace.__eq__:  self._namespace_components == other._namespace_components  (eqkey = same) *)
   Definition ns_eqb (a b : key) : bool := key_eqb (map eqkey a) (map eqkey b).
@@ -321,11 +344,14 @@ End NS.
 Definition stem_collides (strop : str -> str) (es : bool) (ext stem : str) (outdir : path) (s : store) (types : list ty) : bool :=
   existsb (fun k => existsb (fun t => key_eqb (ns_path strop ext stem outdir k) (out_path strop es ext outdir t)) types) (keys s).
 
-(* build_namespace_tree as a partial function: None = raises ValueError (nothing has been written at that point) *)
-Definition build_checked (stem_check : bool) (strop eqkey : str -> str) (es : bool) (ext stem : str) (outdir : path)
+(* build_namespace_tree as a partial function: None = raises ValueError (nothing has been written at that point).
+   stem_validate: does Namespace.__init__ validate the stem (design_notes/C11_stem_validate_fix.patch)?  Regenerated fact
+   pin_c11path_stem_validated (Generated/Gen_Pin_c11path.v). *)
+Definition build_checked (stem_validate stem_check : bool) (strop eqkey : str -> str) (es : bool) (ext stem : str) (outdir : path)
            (perm : list key -> list key) (types : list ty) : option (store * key) :=
   let b := build strop eqkey es ext outdir perm types in
-  if stem_check && stem_collides strop es ext stem outdir (fst b) types then None else Some b.
+  if stem_validate && negb (stem_valid stem) then None                      (* Namespace.__init__ -> _checked_namespace_file_stem *)
+  else if stem_check && stem_collides strop es ext stem outdir (fst b) types then None else Some b.
 
 (* ---- the files a generation run writes --------------------------------------------------------------------------------
    DSDLCodeGenerator.generate_all (jinja/__init__.py): provider = namespace.get_all_types if generate_namespace_types else
